@@ -12,6 +12,9 @@ Tie C.  Families (each a function taking JSON-able case dicts, so that replay re
   bern      analytic Bernoulli marginal / log_marginal vs Phi(m / sqrt(1+v)) and vs mpmath.quad.
   logphi    log_normal_cdf and its derivative vs log Phi, phi/Phi on a dense sweep (test only).
   trunc     expected_log_prob vs adaptive integration of the documented density (test only).
+Likelihood parameters are SET by the harness (make_lik: setter / initialize / constructor default, default and
+non-default constraints) and every reference density uses the values that were set, never values read back; the
+read-back is compared with the set value (keys <kind>:param-readback:<name>:<route>).
 Axes shared by the families: `xform` (the module - quadrature or likelihood - is built first and THEN cast / moved /
 copied: .double() .float() .to(dtype) .cpu() .to("cpu") deepcopy pickle state_dict round trip, then evaluated; the
 nodes after the transformation must be the casts of hermgauss(n), E[1] must be 1) and far-tail observations for
@@ -467,43 +470,107 @@ def beta_documented_offset():
     return 0
 
 
-def make_lik(kind, par, n=None, B=None, xform=None):
-    """par: dict of requested values (lists of length B when batched); xform: transformations applied to the built
-    likelihood (parameters set first).  Returns (lik, realised parameter lists read AFTER the transformations)."""
+PAR_NAMES = {"laplace": ["noise"], "student": ["noise", "nu"], "beta": ["scale"], "bern": []}
+ATTR = {"noise": "noise", "nu": "deg_free", "scale": "scale"}
+CTOR_KW = {"noise": "noise_constraint", "nu": "deg_free_constraint", "scale": "scale_constraint"}
+ROUTES = ["setter", "initialize", "initialize-float", "setter-each"]
+STUDENT_DEFAULT_NU = 7.0        # StudentTLikelihood.__init__ ends with self.initialize(deg_free=7)
+
+
+class LikBuildError(Exception):
+    """constructing a likelihood / setting its parameters raised (reported by make_lik; the case is skipped)"""
+
+
+def mk_constraint(spec):
+    if spec is None:
+        return None
+    if spec[0] == "gt":
+        return gpytorch.constraints.GreaterThan(spec[1])
+    return gpytorch.constraints.Interval(spec[1], spec[2])
+
+
+def through32(xform):
+    return any(a in ("float", "to32") for a in xform or [])
+
+
+def make_lik(kind, par, n=None, B=None, xform=None, out=None, case=None):
+    """par: dict of requested values (lists of length B when batched) + optional "route" (how the values are SET:
+    attribute setter / initialize(name=tensor) / initialize(name=float) (unbatched) / "setter-noise-only" (Student-t:
+    deg_free is left at the constructor's own initialize(deg_free=7))) + optional "cons" (name -> constraint spec passed to the constructor);
+    xform: transformations applied to the built likelihood (parameters set first).
+    Returns (lik, ref): ref = the parameter values that were SET (what the documented conditional must use).  The
+    values read back through the public properties AFTER the transformations are compared with the set values here
+    (failure keys <kind>:param-readback:<name>); only when the module went through float32 (raw parameter rounded)
+    the read-back values - within 2e-5 of the set ones - are returned instead."""
     bs = torch.Size([B]) if B else torch.Size([])
     L = gpytorch.likelihoods
+    route = par.get("route", "setter")
+    cons = par.get("cons") or {}
+    names = PAR_NAMES[kind]
 
     def shp(v):
         return torch.tensor(v, dtype=torch.float64).reshape(*bs, 1)
 
     def build(setpar=True):
+        kw = {CTOR_KW[k]: mk_constraint(cons.get(k)) for k in names if cons.get(k) is not None}
         with (gs.num_gauss_hermite_locs(n) if n else contextlib.nullcontext()):
             if kind == "bern":
                 lik = L.BernoulliLikelihood()
             elif kind == "laplace":
-                lik = L.LaplaceLikelihood(batch_shape=bs)
-                if setpar:
-                    lik.noise = shp(par["noise"])
+                lik = L.LaplaceLikelihood(batch_shape=bs, **kw)
             elif kind == "student":
-                lik = L.StudentTLikelihood(batch_shape=bs)
-                if setpar:
-                    lik.noise = shp(par["noise"])
-                    lik.deg_free = shp(par["nu"])
+                lik = L.StudentTLikelihood(batch_shape=bs, **kw)
             else:
-                lik = L.BetaLikelihood(batch_shape=bs)
-                if setpar:
-                    lik.scale = shp(par["scale"])
+                lik = L.BetaLikelihood(batch_shape=bs, **kw)
+        if setpar:
+            order = names if route != "setter-each" else list(reversed(names))
+            if route in ("setter", "setter-each"):
+                for k in order:
+                    setattr(lik, ATTR[k], shp(par[k]))
+            elif route == "setter-noise-only":       # deg_free left at the constructor's initialize(deg_free=7)
+                lik.noise = shp(par["noise"])
+            elif route == "initialize":
+                lik.initialize(**{ATTR[k]: shp(par[k]) for k in names})
+            elif route == "initialize-float":        # python floats (unbatched only)
+                lik.initialize(**{ATTR[k]: float(par[k]) for k in names})
+            else:
+                raise ValueError("unknown route %r" % route)
         return lik
-    lik = apply_xform(build(), xform, lambda: build(False))
-    if kind == "bern":
-        real = {}
-    elif kind == "laplace":
-        real = dict(noise=lik.noise.double().reshape(-1).tolist())
-    elif kind == "student":
-        real = dict(noise=lik.noise.double().reshape(-1).tolist(), nu=lik.deg_free.double().reshape(-1).tolist())
-    else:
-        real = dict(scale=lik.scale.double().reshape(-1).tolist())
-    return lik, real
+    try:
+        lik = apply_xform(build(), xform, lambda: build(False))
+    except Exception as e:      # noqa: BLE001 -- an in-bounds value must be accepted by every public route
+        if out is None:
+            raise
+        out.fail("%s:param-set:exception:%s:%s" % (kind, route, type(e).__name__),
+                 "%s likelihood: setting %s through %s (constraints %s%s) raised %s: %s" %
+                 (kind, {k: par[k] for k in names}, route, cons or "default", ", then %s" % xform if xform else "",
+                  type(e).__name__, str(e)[:300]), case)
+        raise LikBuildError(str(e))
+    k_ = B or 1
+    ref = {}
+    for k in names:
+        want = par[k] if isinstance(par[k], list) else [par[k]] * k_
+        ref[k] = [float(x) for x in want]
+        try:
+            got = getattr(lik, ATTR[k]).double().reshape(-1).tolist()
+        except Exception as e:
+            if out is not None:
+                out.fail("%s:param-readback:%s:exception:%s" % (kind, k, type(e).__name__), "reading %s raised %r" % (ATTR[k], e), case)
+            continue
+        if len(got) == 1 and k_ > 1:
+            got = got * k_
+        tol = 2e-5 if through32(xform) else 1e-10
+        bad = len(got) != k_ or any(not abs(g - w) <= tol * (1 + abs(w)) for g, w in zip(got, ref[k]))
+        if out is not None:
+            out.count("param-set:%s:%s:%s:%s" % (kind, k, route, "default-constraint" if cons.get(k) is None else cons[k][0]))
+            if bad:
+                out.fail("%s:param-readback:%s:%s" % (kind, k, route),
+                         "%s likelihood: %s set to %s through %s (constraints %s%s) reads back as %s" %
+                         (kind, ATTR[k], ref[k], route, cons or "default", ", then %s" % xform if xform else "", got), case,
+                         impl=got, model=ref[k])
+        if through32(xform) and not bad:
+            ref[k] = got
+    return lik, ref
 
 
 def lik_nodes(out, lik, n, xform, case):
@@ -516,19 +583,43 @@ def lik_nodes(out, lik, n, xform, case):
     return t.double().tolist(), w.double().tolist()
 
 
-def draw_par(rng, kind, B):
+CONS_CHOICES = {
+    # non-default constraints, all containing the value ranges drawn below and pairwise different (a setter that uses
+    # the other parameter's constraint, or the default one, realises a different value)
+    "noise": [None, ["gt", 0.01], ["iv", 0.01, 8.0], ["gt", 0.001]],
+    "nu": [None, ["gt", 1.0], ["iv", 2.0, 40.0], ["gt", 2.125]],
+    "scale": [None, ["gt", 0.1], ["iv", 0.05, 25.0]],
+}
+
+
+def draw_par(rng, kind, B, plain=False):
+    """values to SET + how they are set (route) + constructor constraints.  plain=True: setter, default constraints"""
     k = B or 1
 
     def lst(f):
         v = [f() for _ in range(k)]
         return v if B else v[0]
     if kind == "laplace":
-        return dict(noise=lst(lambda: rng.uniform(0.05, 3.0)))
-    if kind == "student":
-        return dict(noise=lst(lambda: rng.uniform(0.05, 3.0)), nu=lst(lambda: rng.uniform(2.2, 12.0)))
-    if kind == "beta":
-        return dict(scale=lst(lambda: rng.uniform(0.3, 8.0)))
-    return {}
+        par = dict(noise=lst(lambda: rng.uniform(0.05, 3.0)))
+    elif kind == "student":
+        par = dict(noise=lst(lambda: rng.uniform(0.05, 3.0)), nu=lst(lambda: rng.uniform(2.2, 12.0)))
+    elif kind == "beta":
+        par = dict(scale=lst(lambda: rng.uniform(0.3, 8.0)))
+    else:
+        return {}
+    if plain:
+        return par
+    par["route"] = rng.choice(ROUTES if not B else [r for r in ROUTES if r != "initialize-float"])
+    cons = {name: rng.choice(CONS_CHOICES[name]) for name in PAR_NAMES[kind]}
+    if kind == "student" and cons["noise"] == cons["nu"]:
+        cons["nu"] = ["iv", 2.0, 40.0]
+    if any(v is not None for v in cons.values()):
+        par["cons"] = cons
+    if kind == "student" and rng.random() < 0.15:
+        # the constructor's own initialisation (self.initialize(deg_free=7) under the default GreaterThan(2)); the noise
+        # is then whatever raw 0 means and is not pinned by the documentation: set it
+        par = dict(noise=par["noise"], nu=[STUDENT_DEFAULT_NU] * k if B else STUDENT_DEFAULT_NU, route="setter-noise-only")
+    return par
 
 
 def par_args(kind, real, b, off):
@@ -576,8 +667,15 @@ def fam_cond(out, cases, tag="C13_cond"):
     impl: lik(f) (conditional distribution): public parameters and log_prob(y); model: documented formulas."""
     off_doc = beta_documented_offset()
     coq, owner, liks = [], [], []
+    built = []
+    for c in cases:
+        try:
+            built.append((c,) + make_lik(c["kind"], c["par"], B=c["B"], xform=c.get("xform"), out=out, case=c))
+        except LikBuildError:
+            out.case(dict(fam="cond", kind=c["kind"], par=c["par"], what="construction failed"), True, label="cond:%s" % c["kind"])
+    cases = [b_[0] for b_ in built]
     for ci, c in enumerate(cases):
-        lik, real = make_lik(c["kind"], c["par"], B=c["B"], xform=c.get("xform"))
+        lik, real = built[ci][1:]
         liks.append((lik, real))
         kind = c["kind"]
         for b, (frow, yrow) in enumerate(zip(c["f"], c["y"])):
@@ -700,7 +798,16 @@ def fam_softmax(out, cases, tag="C13_softmax"):
         nfeat = len(c["f"][0])
         lik = gpytorch.likelihoods.SoftmaxLikelihood(num_features=nfeat, num_classes=ncls, mixing_weights=c["W"] is not None)
         if c["W"] is not None:
-            lik.mixing_weights.data = torch.tensor(c["W"], dtype=torch.float64)
+            Wt = torch.tensor(c["W"], dtype=torch.float64)
+            if c.get("route") == "initialize":
+                lik.initialize(mixing_weights=Wt)
+            else:
+                lik.mixing_weights.data = Wt
+            lik = apply_xform(lik, c.get("xform"), None)
+            back = lik.mixing_weights.detach().double()
+            if back.shape != Wt.shape or not torch.equal(back, Wt):
+                out.fail("softmax:param-readback:mixing_weights", "mixing weights set through %s read back differently" % c.get("route", "data"),
+                         c, impl=back.tolist(), model=c["W"])
         ft = torch.tensor(c["f"], dtype=torch.float64)
         if c.get("lead"):
             ft = ft.unsqueeze(0).expand(c["lead"], *ft.shape)
@@ -726,6 +833,9 @@ def gen_softmax(rng, tier):
         ndata = rng.choice([k for k in (1, 2, 3, 5) if k != nfeat])     # ndata == nfeat is the deprecated transposed layout
         cases.append(dict(fam="softmax", W=[[rng.randint(-32, 32) / 16.0 for _ in range(nfeat)] for _ in range(ncls)] if mixing else None,
                           f=[[rng.randint(-64, 64) / 16.0 for _ in range(nfeat)] for _ in range(ndata)], lead=rng.choice([0, 0, 2])))
+        if mixing:      # how the weights are set (dyadic values: exact in float32 too), then cast / copied
+            cases[-1]["route"] = rng.choice(["data", "initialize"])
+            cases[-1]["xform"] = rng.choice([None, ["double"], ["deepcopy"], ["pickle"], ["float", "double"]])
     return cases
 
 
@@ -737,8 +847,15 @@ def fam_lik(out, cases, tag="C13_lik"):
     log-density / density, evaluated as an expr with mpmath."""
     off_doc = beta_documented_offset()
     coq, owner, liks = [], [], []
+    built = []
+    for c in cases:
+        try:
+            built.append((c,) + make_lik(c["kind"], c["par"], n=c["n"], B=c["B"], xform=c.get("xform"), out=out, case=c))
+        except LikBuildError:
+            out.case(dict(fam="lik", kind=c["kind"], par=c["par"], what="construction failed"), True, label="lik:%s:%s:build" % (c["kind"], c["fn"]))
+    cases = [b_[0] for b_ in built]
     for ci, c in enumerate(cases):
-        lik, real = make_lik(c["kind"], c["par"], n=c["n"], B=c["B"], xform=c.get("xform"))
+        lik, real = built[ci][1:]
         liks.append((lik, real))
         nown = lik.quadrature.locations.numel()
         if c["n"] and nown != c["n"]:
@@ -1003,6 +1120,10 @@ def fam_trunc(out, cases):
         for c in cases:
             kind, m, v, y = c["kind"], c["m"], c["v"], c["y"]
             errs, tr = [], None
+            try:
+                make_lik(kind, c["par"], n=NS[0], out=out, case=c)
+            except LikBuildError:
+                continue
             for n in NS:
                 lik, real = make_lik(kind, c["par"], n=n)
                 a = par_args(kind, real, 0, off_doc)
@@ -1086,7 +1207,12 @@ def run(out, ctx):
                 "for num_gauss_hermite_locs in %s + default vs the rule applied to the documented density; analytic Bernoulli marginal; "
                 "log_normal_cdf sweep z in [-40,10] + branch boundaries.  Module-transformation axis: quadrature modules and "
                 "likelihoods are built and THEN taken through %s (likelihoods: the sequences ending in float64) before they are "
-                "evaluated; their nodes must be the casts of hermgauss(n) and E[1] = 1.  Far-tail axis: expected_log_prob / "
+                "evaluated; their nodes must be the casts of hermgauss(n) and E[1] = 1.  Parameter axis: every parameter of every "
+                "likelihood (Student-t deg_free + noise, Laplace noise, Beta scale, Softmax mixing weights) is SET by the harness "
+                "through a public route (attribute setters in either order, initialize(name=tensor), initialize(name=float), "
+                "Student-t: deg_free left at the constructor's own initialize(deg_free=7)) under default and non-default, pairwise "
+                "different constructor constraints (GreaterThan / Interval); the documented conditional is built from the values "
+                "that were SET and the values read back through the public properties are compared with them.  Far-tail axis: expected_log_prob / "
                 "log_marginal of every likelihood at observations 30..600 (Laplace) / 1e5..1e21 (Student-t) scale units from the "
                 "mean, Beta targets within 2^-30..2^-100 of 0 / 2^-30..2^-50 of 1, Bernoulli means 8..35 on the wrong side (log values down to "
                 "-650).  non-trivial = E[p] differs from p(m) by more than 10 tol (polynomials) or the module was transformed, "
